@@ -289,6 +289,8 @@ class Impl:
                 net.node_weights = w      # (RecurrenceNetwork takes node_weights itself)
             return self.set_attrs(net, c)
         if c.ctor == "igraph":
+            # the igraph object keeps the edges in the order (and, when directed, the
+            # orientation) the caller listed them: edge ids are NOT in adjacency order
             g = self.igraph.Graph(n=c.N, edges=[tuple(e) for e in c.edges],
                                   directed=c.directed)
             if w is not None:
@@ -296,7 +298,19 @@ class Impl:
             if c.V is not None:
                 g.es[ATTR] = [float(c.V[i][j]) for i, j in c.edges]
                 g.es[ATTR2] = [float(second_attr(c.V)[i][j]) for i, j in c.edges]
-            return self.Network.FromIGraph(g, silence_level=3)
+            if not c.form.startswith("file:"):
+                return self.Network.FromIGraph(g, silence_level=3)
+            # a file somebody else wrote (igraph itself, edges in the object's order)
+            fmt = c.form.split(":")[1]
+            p = self.path(fmt)
+            g.write(p, format=fmt)
+            kw = {"directed": c.directed} if fmt == "edgelist" else {}
+            if c.cls == "net":
+                return self.Network.Load(p, fmt, silence_level=3, **kw)
+            pg = self.path("grid")
+            self.grid(c).save(pg)
+            cls = self.SpatialNetwork if c.cls == "spatial" else self.GeoNetwork
+            return cls.Load((p, pg), fmt, silence_level=3, **kw)
         if c.ctor == "dense":
             kw["adjacency"] = c.A if c.form == "list" else np.array(c.A, dtype=adt).reshape(c.shape)
         elif c.ctor == "coo":
@@ -534,6 +548,10 @@ def observe(net):
     o["grid"] = None if g is None or not hasattr(g, "grid") else \
         {k: [exact(x) for x in np.asarray(v, dtype=float).ravel()] for k, v in sorted(g.grid().items())}
     o["link_attribute_names"] = list(net.graph.es.attributes())     # igraph keeps insertion order
+    # the edge attributes as the embedded graph object holds them, edge by edge (read without
+    # link_attribute(); listed by edge, so independent of the order of the edge ids)
+    for key, name in (("es", ATTR), ("es2", ATTR2), ("es3", ATTR3)):
+        o[key] = es_pairs(net, name)
     o["find_link_attribute"] = [bool(net.find_link_attribute(a)) for a in (ATTR, ATTR2, ATTR3)]
     # what the embedded graph object carries (written by save, read by FromIGraph / Load)
     if "node_weight_nsi" in net.graph.vs.attribute_names():
@@ -541,6 +559,23 @@ def observe(net):
     else:
         o["gvw"] = None
     return o
+
+
+def es_pairs(net, name):
+    """[(i, j, value)] of the edge attribute `name` of the embedded graph object, sorted by
+    edge (an undirected edge as (smaller, larger)); None when the graph has no such attribute"""
+    if name not in net.graph.es.attributes():
+        return None
+    d = bool(net.directed)
+    rows = sorted((lo_hi(d, int(a), int(b)), k, v) for k, ((a, b), v)
+                  in enumerate(zip(net.graph.get_edgelist(), net.graph.es[name])))
+    return [(e[0], e[1], "None" if v is None else exact(v)) for e, _, v in rows]
+
+
+def show_es(rows):
+    if rows is None:
+        return "none"
+    return ";".join(f"{i},{j},{v if isinstance(v, str) else show_rat(v)}" for i, j, v in rows) or "-"
 
 
 def show_obs(o):
@@ -553,7 +588,8 @@ def show_obs(o):
         "none" if o["gvw"] is None else show_rats(o["gvw"]),
         "none" if o["link_attribute2"] is None else show_mat(o["link_attribute2"], show_rat),
         "none" if o["link_attribute3"] is None else show_mat(o["link_attribute3"], show_rat),
-        ",".join(o["link_attribute_names"]) or "-"])
+        ",".join(o["link_attribute_names"]) or "-",
+        show_es(o["es"]), show_es(o["es2"]), show_es(o["es3"])])
 
 
 MODEL_OPS = {"saveload:gml": "saveload_gml", "loadspatial:gml": "loadspatial_gml",
@@ -675,6 +711,10 @@ def expected(c):
             e[key] = None
         else:
             e[key] = [[Fraction(0)] * N for _ in range(N)]
+    if pairs:       # the embedded graph object holds the specified value on every edge
+        for key, W in (("es", V), ("es2", V2), ("es3", V3)):
+            e[key] = None if W is None else \
+                [(i, j, W[i][j]) for i, j in canon_edges(pairs, directed)]
     if has_grid:    # the spatial embedding the network was given (SpatialNetwork / GeoNetwork Load)
         if c.cls == "geo":
             e["grid"] = {"lat": [Fraction(x) for x in c.lats],
@@ -701,7 +741,7 @@ def close(a, b):
 def first_difference(o, e):
     for k in ["N", "directed", "n_links", "link_density", "adjacency", "sp_A", "graph",
               "node_weights", "total_node_weight", "mean_node_weight", "link_attribute",
-              "link_attribute2", "link_attribute3", "gvw"]:
+              "link_attribute2", "link_attribute3", "gvw", "es", "es2", "es3"]:
         if k in e and not close(o[k], e[k]):
             return k
     if "grid" in e:
@@ -906,6 +946,41 @@ def cases_for(rng, N, directed, edges, quick, rich):
     # igraph objects
     add(ctor="igraph", form="graph", edges=list(edges))
     add(ctor="igraph", form="graph-noweights", edges=list(edges), w=None)
+    # igraph objects and files whose edges are in NO particular order (edge ids do not follow
+    # the adjacency order; an undirected edge listed in either orientation): FromIGraph / Load
+    # keep that object, and everything that loops over graph.es must not care
+    def own_order():
+        es = [(j, i) if (not directed and rng.random() < 0.5) else (i, j) for i, j in edges]
+        rng.shuffle(es)
+        return es
+
+    def attr_history():
+        # attributes assigned AFTER the object was adopted, then read back / copied / saved
+        h = ["setattr%s=%d_%d_%d_%d" % (rng.choice(["", "2", "3"]), rng.randrange(1, 17),
+                                        rng.randrange(1, 17), rng.randrange(0, 17),
+                                        rng.choice([0, 0, 0, -35, 35]))]
+        return h + (history_ops(rng) if rng.random() < 0.6 else
+                    [rng.choice(["copy", "regraph", "saveload:" + rng.choice(FORMATS[:3])])]
+                    if rng.random() < 0.7 else [])
+
+    add(ctor="igraph", form="graph-shuffled", edges=own_order())
+    add(ctor="igraph", form="graph-shuffled", edges=own_order(), V=None, ops=attr_history())
+    ffmts = FORMATS[:3] if rich else [rng.choice(FORMATS[:3])]
+    for f in ffmts:
+        add(ctor="igraph", form="file:" + f, edges=own_order())
+        add(ctor="igraph", form="file:" + f, edges=own_order(), V=None, ops=attr_history())
+    if edges and max(max(e) for e in edges) == N - 1:
+        # a plain edge list file stores neither weights nor attributes (and no isolated
+        # trailing nodes): the documented way to import somebody else's network
+        add(ctor="igraph", form="file:edgelist", edges=own_order(), w=None, V=None,
+            ops=attr_history())
+    if N >= 1 and rng.random() < (0.5 if not rich else 1.0):
+        f = rng.choice(FORMATS[:3])
+        add(cls="spatial", ctor="igraph", form="file:" + f, edges=own_order(),
+            ops=attr_history() if rng.random() < 0.5 else [])
+        lats2 = [rng.choice([0.0, 60.0, -60.0, 45.0, 30.0]) for _ in range(N)]
+        add(cls="geo", wtype=1, lats=lats2, ctor="igraph", form="file:" + f, edges=own_order(),
+            w=rng.choice([None, w]), ops=attr_history() if rng.random() < 0.5 else [])
     # operations
     add(form="list", ops=["copy"], **dense)
     add(form="list", ops=["ucopy"], **dense)
